@@ -55,6 +55,8 @@ def runOracle (line : String) : String :=
     | _ => ("", line)
   let (case_, real) := splitReal body
   if case_.isEmpty then "ok" else
+  let case_ := if case_.front = '~' then (case_.drop 1).toString else case_      -- run under a grouping locale: same judgement
+  if case_.isEmpty then "ok" else
   let kind := case_.front
   let rest := (case_.drop 1).toString
   match kind with
